@@ -233,7 +233,7 @@ def run_scenario(name, log, outdir):
     b = scenarios_bin(log)
     d = os.path.join(BUILD, "scen", name)
     tr = os.path.join(outdir, name + ".txt")
-    if name == "c04_recover_fsync":
+    if name in ("c04_recover_fsync", "c03_recover_order"):
         subprocess.run([b, "c04_crash_post_meta", d], stdout=subprocess.DEVNULL, stderr=subprocess.DEVNULL)
         st = os.path.join(outdir, name + ".strace")
         p = subprocess.run(["strace", "-f", "-y", "-e", "trace=pwrite64,fsync,fdatasync,ftruncate", "-o", st, b, "c04_reopen", d],
@@ -248,6 +248,15 @@ def run_scenario(name, log, outdir):
         writes = [i for i, (c, f) in enumerate(ev) if c == "pwrite64" and f == "ht"]
         truncs = [i for i, (c, f) in enumerate(ev) if c == "ftruncate" and f == "wal"]
         violated = None
+        if name == "c03_recover_order":
+            # the redo log must outlive the hash-table writes it protects: no pwrite(ht) after ftruncate(wal)
+            if writes and truncs:
+                violated = writes[-1] > truncs[0]
+            with open(tr, "w") as f:
+                f.write("scenario %s: crash after the meta switch-over, then reopen under strace\n" % name)
+                f.write("syscall trace of recovery (call, file):\n" + "\n".join("%s %s" % e for e in ev)[-4000:])
+                f.write("\nverdict: %s\n" % ("VIOLATED: the WAL was truncated before the last hash-table page was rewritten (a crash in between loses the redo data)" if violated else "holds / not observed"))
+            return violated, tr
         if writes and truncs:
             last_w = writes[-1]
             t = [i for i in truncs if i > last_w]
@@ -295,6 +304,12 @@ def run_scenario(name, log, outdir):
         if not creates:
             return None, tr
         return bool(problems), tr
+    if name in ("c14_fault_sweep", "c14_fault_sweep_rollback"):
+        import faultsweep
+        wd = os.path.join(BUILD, "scen", name)
+        os.makedirs(wd, exist_ok=True)
+        violated, problems = faultsweep.run(b, wd, tr, only_files=r"rollback" if name.endswith("rollback") else None)
+        return violated, tr
     if name == "c20_lock_order":
         st = os.path.join(outdir, name + ".strace")
         subprocess.run(["strace", "-f", "-y", "-e", "trace=openat,flock", "-o", st, b, "c20_fresh_and_reopen", d],
